@@ -135,7 +135,18 @@ def make_probe(desc, k):
         kind = desc[1]
         bad = {"int": I(1), "null": A.Null(), "bool": A.Bool(True), "list": A.lst(S("a")), "object": A.obj(), "func": V("print"),
                "lone_byte": A.Index(S("é"), I(0))}[kind]
-        return {"stmts": [A.pr(A.IStr(["é ", bad, " post"]))], "expect": None, "tag": "slot_not_string", "what": "slot value of kind " + kind}
+        form = desc[2] if len(desc) > 2 else "text_around"
+        if form == "lone_literal":
+            st = [A.pr(A.IStr([bad]))]
+        elif form == "lone_variable":
+            st = [A.Declare(V("sk%d" % k), bad), A.pr(A.IStr([V("sk%d" % k)]))]
+        elif form == "lone_variable_declared":
+            st = [A.Declare(V("sk%d" % k), bad), A.Declare(V("sr%d" % k), A.IStr([V("sk%d" % k)])), A.pr(A.Call(A.Prop(V("sr%d" % k), "type", True), []))]
+        elif form == "variable_first":
+            st = [A.Declare(V("sk%d" % k), bad), A.pr(A.IStr([V("sk%d" % k), " post"]))]
+        else:
+            st = [A.pr(A.IStr(["é ", bad, " post"]))]
+        return {"stmts": st, "expect": None, "tag": "slot_not_string", "what": "slot value of kind %s (%s)" % (kind, form)}
     if desc[0] == "bytes":
         ch = desc[1]
         x = "b%d" % k
@@ -160,6 +171,9 @@ def bad_literals():
         col0 = len(base) + 1          # column of the next character (characters, not bytes)
         out.append((base + '\\q"\n', (1, col0 + 1), "InvalidEscapeChar"))
         out.append((base + '\\é"\n', (1, col0 + 1), "InvalidEscapeChar"))
+        for ch in "%{}'#;.-/()[]!?*+,:<=>@^_`|~& 0a":          # only \\ \" \$ \n \r \t \x.. are escapes
+            if ch not in "nrtx":
+                out.append((base + "\\" + ch + '"\n', (1, col0 + 1), "InvalidEscapeChar"))
         out.append((base + '\\xg1"\n', (1, col0 + 2), "InvalidHexChar"))
         out.append((base + '\\x1g"\n', (1, col0 + 3), "InvalidHexChar"))
         out.append((base + '\\x4é"\n', (1, col0 + 3), "InvalidHexChar"))
@@ -180,6 +194,12 @@ def bad_literals():
         out.append((ibase + '\\q"\n', (1, icol + 1), "InvalidEscapeChar"))
     # on a later line, after a multi-line string
     out.append(('y := "l1\nl2"\nx := "ab\\q"\n', (3, 10), "InvalidEscapeChar"))
+    # on the second and third line of the literal itself
+    out.append(('x := "l1\nab\\q"\n', (2, 4), "InvalidEscapeChar"))
+    out.append(('x := "é\n\né✓\\xg1"\n', (3, 5), "InvalidHexChar"))
+    out.append(('x := "l1 é\n  $"\n', (2, 3), "UnescapedDollar"))
+    out.append(('x := $"l1 é\r\n ✓$x"\n', (2, 4), "InvalidInterpolationStart"))
+    out.append(('print(1); x := $"a${"b"}\n\\q"\n', (2, 2), "InvalidEscapeChar"))
     out.append(('y := "é\n"; x := "$"\n', (2, 10), "UnescapedDollar"))
     return out
 
@@ -211,6 +231,8 @@ def run(rep, tier):
             descs.append(("interp", (0, t), (s,)))
     for kind in ("int", "null", "bool", "list", "object", "func", "lone_byte"):
         descs.append(("slotkind", kind))
+        for form in ("lone_literal", "lone_variable", "lone_variable_declared", "variable_first"):
+            descs.append(("slotkind", kind, form))
     for variant in ("text_before", "text_after", "value_before", "value_after", "text_around"):
         descs.append(("lookalike", variant))
     for nslots in (1, 2, 3, 4):
